@@ -566,7 +566,7 @@ func buildSpace(name string, thorough bool, aux auxData) (*space, error) {
 			p.sinks(strings.TrimSpace(pre), fmt.Sprintf("deep:%s/d=%d", g.name, pk.Depth), rich)
 		}
 		if name == "sink-deep-heavy" {
-			sp := planSpace(name, p, "fuzz", 16, 16)
+			sp := planSpace(name, p, "fuzz", 8, 8)
 			sp.Heavy = true
 			return sp, nil
 		}
